@@ -141,10 +141,13 @@ impl Expansion<'_> {
             })
             .collect();
         let fields_tys: Vec<_> = fields.iter().map(|(_, f)| &f.ty).collect();
-        let fields_tuple = syn::Type::Tuple(syn::TypeTuple {
-            paren_token: token::Paren::default(),
-            elems: fields_tys.iter().cloned().cloned().collect(),
-        });
+        let fields_tuple = match fields_tys.as_slice() {
+            [ty] => (*ty).clone(),
+            tys => syn::Type::Tuple(syn::TypeTuple {
+                paren_token: token::Paren::default(),
+                elems: tys.iter().cloned().cloned().collect(),
+            }),
+        };
 
         [
             (&convs.owned, false, false),
